@@ -380,6 +380,17 @@ Proof.
 Qed.
 Print Assumptions C11_memo_export_refuted.
 
+(* Over a heap of normal objects (distinct port names, members of PortDir and SpiceType) the current declaration of an object is
+   in the round trip's normal form, so the external-module part of every package of every history survives from_proto/to_proto. *)
+Theorem C11_current_decl_normal : forall o x, obj_normal o = true -> decl_of o = Ok x -> ext_normal x = true.
+Proof. exact current_decl_normal. Qed.
+Theorem C11_current_decls_roundtrip : forall hp uses ds, forallb obj_normal hp = true -> decls_current hp uses ds ->
+  forall d, In d ds -> rt_ext d = Ok d.
+Proof. exact current_decls_roundtrip. Qed.
+Print Assumptions C11_current_decls_roundtrip.
+Example C11_current_decl_nonvacuous : obj_normal cell3 = true /\ forallb obj_normal heap4 = true /\ decl_of cell3 = Ok d3.
+Proof. vm_compute. repeat split; reflexivity. Qed.
+
 (* non-vacuity: a history with every kind of step on two objects; the fresh exporter's packages are current at each step *)
 Example C11_history_nonvacuous :
   let o2 := {| eo_domain := ""; eo_name := "tap"; eo_ports := [{| ep_name := "p"; ep_width := 2; ep_dir := "INOUT" |}]; eo_spicetype := "DIODE" |} in
